@@ -44,6 +44,12 @@ class Knobs:
         self.p_wildcard = 0.0
         self.p_forbidden = 0.0
         self.p_final_in_region = 0.5
+        self.p_ctx = 0.0            # context-updating marker actions / context guards
+        self.p_fail = 0.0           # actions that raise
+        self.p_missing = 0.0        # actions with no implementation
+        self.p_assign = 0.0         # built-in assign with a literal mapping
+        self.p_choose = 0.0         # built-in choose
+        self.p_async_action = 0.0
         self.max_iterations = 25
         self.n_events = 8
         self.events = list(EVENTS)
@@ -57,6 +63,10 @@ PROFILES = {
     "select": {"p_on": 0.7, "p_guard": 0.6, "p_parallel": 0.45, "p_composite_guard": 0.3, "p_always": 0.05,
                "p_wildcard": 0.15, "p_forbidden": 0.1},
     "loops": {"p_always": 0.45, "p_raise": 0.4, "p_ondone": 0.6, "p_final": 0.3, "max_iterations": 6, "p_guard": 0.45},
+    "actions": {"p_ctx": 0.35, "p_fail": 0.12, "p_assign": 0.2, "p_choose": 0.2, "p_raise": 0.15, "p_guard": 0.4,
+                "p_always": 0.15, "p_parallel": 0.3},
+    "faults": {"p_ctx": 0.2, "p_fail": 0.3, "p_missing": 0.08, "p_assign": 0.1, "p_choose": 0.15, "p_async_action": 0.05,
+               "p_raise": 0.1},
     "descr": {"p_wildcard": 0.5, "p_forbidden": 0.25, "p_on": 0.6, "events": ["a", "a.b", "a.b.c", "b", "a.c", "done.x", "xstate.q", "error.e", "after.1"],
               "p_always": 0.03, "p_raise": 0.05},
 }
@@ -174,6 +184,56 @@ def decorate(rng: random.Random, kn: Knobs, cfg, paths):
         ev = rng.choice(kn.events)
         return {"type": rng.choice(["xstate.raise", "raise"]), "params": {"event": rng.choice([{"type": ev}, ev])}}
 
+    CTXK = ["a", "b", "c"]
+    xc = [0]
+
+    def ctx_guard():
+        return f"{rng.choice(['lt', 'ge', 'eq'])}:{rng.choice(CTXK)}:{rng.randint(0, 4)}"
+
+    def extra_actions(depth=0):
+        """context / failing / missing / built-in actions appended after a list's marker action"""
+        out = []
+        if rng.random() < kn.p_ctx:
+            k = rng.choice(CTXK)
+            out.append(rng.choice([f"inc:{k}", f"set:{k}:{rng.randint(0, 4)}"]))
+            feats.add("ctx-action")
+        if rng.random() < kn.p_assign:
+            out.append({"type": rng.choice(["assign", "xstate.assign"]),
+                        "params": {"assignment": {rng.choice(CTXK): rng.randint(0, 5)}}})
+            feats.add("assign")
+        if rng.random() < kn.p_choose and depth < 2:
+            xc[0] += 1
+            conds = []
+            for bi in range(rng.randint(1, 3)):
+                br = {"actions": [f"ch:{xc[0]}:{bi}"] + extra_actions(depth + 1)}
+                if bi == 0 or rng.random() < 0.7:
+                    br[rng.choice(["guard", "cond"])] = rng.choice([gen_guard(rng, kn, real), ctx_guard()])
+                if rng.random() < 0.15:
+                    br["actions"] = br["actions"][0]
+                conds.append(br)
+            out.append({"type": rng.choice(["choose", "xstate.choose"]), "params": {"conditions": conds}})
+            feats.add("choose")
+        if rng.random() < kn.p_fail:
+            xc[0] += 1
+            out.insert(rng.randint(0, len(out)), f"fail:{xc[0]}")
+            feats.add("failing-action")
+        if rng.random() < kn.p_missing:
+            xc[0] += 1
+            out.insert(rng.randint(0, len(out)), f"missing:{xc[0]}")
+            feats.add("missing-action")
+        if rng.random() < kn.p_async_action:
+            xc[0] += 1
+            out.append(f"async:{xc[0]}")
+            feats.add("async-action")
+        if out and rng.random() < 0.5:
+            xc[0] += 1
+            out.append(f"x:{xc[0]}")         # a marker after the special ones: shows whether the list went on
+        return out
+
+    any_extra = kn.p_ctx + kn.p_fail + kn.p_missing + kn.p_assign + kn.p_choose + kn.p_async_action > 0
+    if kn.p_ctx > 0 or kn.p_assign > 0:
+        cfg["context"] = {k: rng.randint(0, 2) for k in CTXK}
+
     for p in allp:
         n = node_at(cfg, p)
         tag = ".".join(p)
@@ -186,8 +246,8 @@ def decorate(rng: random.Random, kn: Knobs, cfg, paths):
                     feats.add("history:default")
             feats.add("history:" + n["history"] + (":par" if node_at(cfg, p[:-1]).get("type") == "parallel" else ":cmp"))
             continue
-        n["entry"] = [f"en:{tag}"]
-        n["exit"] = [f"ex:{tag}"]
+        n["entry"] = [f"en:{tag}"] + (extra_actions() if any_extra and rng.random() < 0.4 else [])
+        n["exit"] = [f"ex:{tag}"] + (extra_actions() if any_extra and rng.random() < 0.3 else [])
         if rng.random() < kn.p_raise * 0.5:
             n["entry"].append(raise_action())
         if n.get("type") == "final":
@@ -217,11 +277,12 @@ def decorate(rng: random.Random, kn: Knobs, cfg, paths):
                             feats.add("reenter")
                     else:
                         feats.add("targetless")
-                    t["actions"] = [f"tr:{tag}:{ev}:{len(cands)}"]
+                    t["actions"] = [f"tr:{tag}:{ev}:{len(cands)}"] + (extra_actions() if any_extra else [])
                     if rng.random() < kn.p_raise:
                         t["actions"].append(raise_action())
                     if rng.random() < kn.p_guard:
-                        t[rng.choice(["guard", "guard", "cond"])] = gen_guard(rng, kn, real)
+                        t[rng.choice(["guard", "guard", "cond"])] = (ctx_guard() if kn.p_ctx > 0 and rng.random() < 0.4
+                                                                     else gen_guard(rng, kn, real))
                         feats.add("guard")
                     cands.append(t)
                 if len(cands) > 1:
